@@ -6,7 +6,7 @@
    Per tree: the compact layout; every trivia of the menus at every used token
    boundary, one boundary at a time; every quoting form of every argument, one
    argument at a time; every trailing trivia; NLay layouts with all choices drawn
-   at random (TLC -seed).  Only every fourth small tree (every second one in the thorough
+   at random (TLC -seed).  Only every sixth small tree (every second one in the thorough
    tier) gets the one-at-a-time layouts; the choice trees (members in every order) get the compact
    and the random layouts.  Trees: family f holds the trees with index = f modulo
    NFam of the exhaustive small set plus NTrees random deeper trees.
@@ -76,10 +76,20 @@ NEsc == Len(EscSeq)
 EscBody(k) == LET r == EscSeq[k]  d == [q |-> "d", src |-> r]  sq == [q |-> "s", src |-> r] IN
   <<RawNode(C("x:b-c"), <<d>>, << >>), RawNode(C("x:b-c"), <<sq>>, << >>),
     Cont(Ids[1], <<RawNode(C("description"), <<[q |-> "d", src |-> C("C:") \o r \o <<LF>> \o Spaces(12) \o r], sq, d>>, << >>)>>)>>
+\* arguments whose source is a multi-line double-quoted string with blanks at its edges (YangString!Edge2): indentation
+\* and trailing blanks on the first and on the last line, lines of blanks only.  Each tree has the string as the argument of
+\* two statements at different depths and once more cut in two pieces after its last line break; every argument must be
+\* the decoding of its own source form (blanks before a line break go, blanks before the closing quote stay).
+EdgeSeq == SetToSeq(Edge2({<< >>, Spaces(2), Spaces(20), <<TAB>>}, <<LF>>))
+NEdge == Len(EdgeSeq)
+EdgeBody(k) == LET src == EdgeSeq[k]  d == [q |-> "d", src |-> src] IN
+  <<RawNode(C("x:b-c"), <<d>>, << >>),
+    Cont(Ids[1], <<RawNode(C("description"), <<d>>, << >>),
+                   RawNode(C("x:b-c"), <<[q |-> "d", src |-> HeadOf(src)], [q |-> "d", src |-> TailOf(src)]>>, << >>)>>)>>
 \* which small trees get the full set of layouts (all of them in the thorough tier)
 \* ("shift": trees with fixed source forms get the blank trivia only, which is what moves an occurrence to another column)
 FullSet(i, body) == IF HasRaw(Module(body)) THEN (IF Thorough THEN "full" ELSE "shift")
-                    ELSE IF i % (IF Thorough THEN 2 ELSE 4) = 1 THEN "full" ELSE "light"
+                    ELSE IF i % (IF Thorough THEN 2 ELSE 6) = 1 THEN "full" ELSE "light"
 
 RE(seq) == seq[RandomElement(1..Len(seq))]
 RECURSIVE RandStmt(_)
@@ -118,18 +128,19 @@ Layouts(f, tid, body, full) ==
       one == UNION {{<<u[1], t>> : t \in 1..(lim(IF u[2] = "s" THEN Len(TrivSep) ELSE IF u[2] = "o" THEN Len(TrivOpt) ELSE 5) - 1)} : u \in used}
       args == {u[1] - 1 : u \in {v \in used : v[2] = "s"}}
   IN {Vec(f, tid, src, base, Feat("base", 0, 0), 0)}
-     \cup (IF full # "light" THEN
+     \cup (IF full \notin {"light", "light2"} THEN
             {Vec(f, tid, src, Layout([P0 EXCEPT ![x[1]] = x[2]], Q0, src, 0), Feat("trivia", x[1], x[2]), 0) : x \in one}
             \cup {Vec(f, tid, src, Layout(P1, [Q0 EXCEPT ![x[1]] = x[2]], src, 0), Feat("quoting", x[1], x[2]), 0) : x \in {<<b, q>> : b \in args, q \in 1..5}}
             \cup {Vec(f, tid, src, Layout(P0, Q0, src, e), Feat("end", 0, e), e) : e \in 1..(lim(Len(TrivEnd)) - 1)}
             ELSE {})
      \cup {LET e == RandomElement(0..(Len(TrivEnd) - 1)) IN
-           Vec(f, tid, src, Layout([b \in 1..k |-> RandomElement(0..(MaxMenu - 1))], [b \in 1..k |-> RandomElement(0..5)], src, e), Feat("random", 0, j), e) : j \in 1..NLay}
+           Vec(f, tid, src, Layout([b \in 1..k |-> RandomElement(0..(MaxMenu - 1))], [b \in 1..k |-> RandomElement(0..5)], src, e), Feat("random", 0, j), e) : j \in 1..(IF full = "light2" /\ NLay > 2 /\ ~Thorough THEN 2 ELSE NLay)}
 
 Cases ==
   UNION {Layouts(fam, i, Small[i], FullSet(i, Small[i])) : i \in {i \in 1..Len(Small) : i % NFam = fam % NFam}}
-  \cup UNION {Layouts(fam, 500 + k, ChoiceBody(k), "light") : k \in {k \in 0..(NChoice - 1) : k % NFam = fam % NFam}}
-  \cup UNION {Layouts(fam, 2000 + k, EscBody(k), "light") : k \in {k \in 1..NEsc : k % NFam = fam % NFam /\ (Thorough \/ k % 2 = 0)}}
+  \cup UNION {Layouts(fam, 500 + k, ChoiceBody(k), "light2") : k \in {k \in 0..(NChoice - 1) : k % NFam = fam % NFam}}
+  \cup UNION {Layouts(fam, 3000 + k, EdgeBody(k), "light2") : k \in {k \in 1..NEdge : k % NFam = fam % NFam /\ (Thorough \/ k % 3 = 0)}}
+  \cup UNION {Layouts(fam, 2000 + k, EscBody(k), "light2") : k \in {k \in 1..NEsc : k % NFam = fam % NFam /\ (Thorough \/ k % 2 = 0)}}
   \cup UNION {Layouts(fam, 1000 * (fam + 1) + j, RandBody(j), "full") : j \in 1..NTrees}
 GInit == fam \in 0..(NFam - 1) /\ done = FALSE
 GNext == /\ ~done /\ done' = TRUE /\ UNCHANGED fam
